@@ -90,15 +90,39 @@ theorem packets_roundtrip (ps : List Packet) (hv : ∀ p ∈ ps, p.Valid) :
 theorem header_roundtrip (t n : Nat) (h1 : 1 ≤ t) (h2 : t ≤ 5) (hn : n < 2 ^ 24) :
     parseHeader (t :: intToBytes n) = .ok (n, t) := parseHeader_frame t n h1 h2 hn
 
-/-- D13 (the point excluded by `Packet.Valid`): a body of exactly 2^24 bytes is
-*accepted* by the encoder's `len(data) > MaxPacketSize` test although the 3-byte
-length field cannot carry it — the header announces length 0. -/
-theorem d13_excluded_point (p : Packet) (h1 : 1 ≤ p.typ) (h2 : p.typ ≤ 5) (hl : p.body.length = 2 ^ 24) :
-    frame p = .ok (p.typ :: 0 :: 0 :: 0 :: p.body) := by
-  unfold frame maxPacketSize intToBytes
+/-- D13 (repaired by a `fix:` commit; found from the hypothesis `Packet.Valid` the
+round-trip proof forced): the old `len(data) > MaxPacketSize` test *accepted* a
+body of exactly 2^24 bytes although the 3-byte length field cannot carry it —
+the header announced length 0. -/
+theorem d13_witness (p : Packet) (h1 : 1 ≤ p.typ) (h2 : p.typ ≤ 5) (hl : p.body.length = 2 ^ 24) :
+    frameUnfixed p = .ok (p.typ :: 0 :: 0 :: 0 :: p.body) := by
+  unfold frameUnfixed maxPacketSize intToBytes
   have : ¬ (p.typ < 1 ∨ p.typ > 5) := by omega
   rw [if_neg this, hl]
   simp
+
+/-- the repaired encoder accepts exactly the valid packets: everything it frames
+is inside the domain of `packets_roundtrip` -/
+theorem frame_ok_iff_valid (p : Packet) : (∃ bs, frame p = .ok bs) ↔ p.Valid := by
+  constructor
+  · intro ⟨bs, h⟩
+    unfold frame maxPacketSize at h
+    unfold Packet.Valid
+    by_cases h1 : p.typ < 1 ∨ p.typ > 5
+    · rw [if_pos h1] at h; cases h
+    · rw [if_neg h1] at h
+      by_cases h2 : p.body.length ≥ 2 ^ 24
+      · rw [if_pos h2] at h; cases h
+      · omega
+  · intro h; exact ⟨_, frame_ok p h⟩
+
+/-- `frame` = header (a function of type and length only) followed by the body -/
+theorem frame_eq_header (p : Packet) :
+    frame p = (match frameHeader p.typ p.body.length with | .ok h => .ok (h ++ p.body) | .error e => .error e) := by
+  unfold frame frameHeader
+  split
+  · rfl
+  · split <;> simp
 
 example : (⟨4, [1, 2, 3]⟩ : Packet).Valid := by simp [Packet.Valid]
 
